@@ -80,6 +80,18 @@ def extra_cases(rng, quick):
     return out
 
 
+def field_tol(case):
+    """Tolerance for the accumulated trajectory difference (model's Thomas solves from its own levels vs stored
+    field).  The per-step residual is the tie; two accurate solvers differ per step by about cond x rounding, and
+    the conditioning of the step matrix grows with the spread of the table's diffusivity (DESIGN 11.9)."""
+    spread = 1.0
+    if case["kind"] == "single":
+        tb = case["table"]
+        a_ = np.asarray(tb["alpha"], float) if "alpha" in tb else 1 / (np.asarray(tb["compressibility"], float) * np.asarray(tb["viscosity"], float))
+        spread = float(a_.max() / a_.min())
+    return min(1e-3, 1e-7 * max(1.0, spread))
+
+
 def run(ctx):
     core.coq_phase(ctx, GEN, PROPS)
     rng = dom.rng_for(ctx, 4)
@@ -101,7 +113,7 @@ def run(ctx):
                 what="a stored time level does not satisfy the implicit update built from the previous level "
                      "(relative residual of the model's step system above rounding level)",
                 key="residual", input=rescorr.replay_payload(cases[k]), observed=dict(max_relative_residual=resid)))
-        elif not d_field <= 1e-7:
+        elif not d_field <= field_tol(cases[k]):
             ctx.violations.append(dict(what="stored field differs from the model's exact (Thomas) update sequence",
                                        key="field", input=rescorr.replay_payload(cases[k]), observed=dict(max_abs_diff=d_field)))
     probes(ctx, [c for c in cases if c["kind"] == "single"][:3] + [c for c in cases if c["kind"] == "ideal"][:3])
@@ -130,4 +142,4 @@ def replay(payload):
         return 1
     res = rescorr.run_cases(ctx, [case], [im], "replay", shard=1)
     print(json.dumps(dict(result=res, recorded=payload.get("observed")), default=str))
-    return 0 if res[0] and res[0][4] <= RES_TOL and res[0][0] <= 1e-7 else 1
+    return 0 if res[0] and res[0][4] <= RES_TOL and res[0][0] <= field_tol(case) else 1
